@@ -386,19 +386,41 @@ namespace fixedmath
   /// \brief Returns the product of two fixed_t point values.
   namespace detail
     {
+    ///\returns true when \param result is in range lowest() .. max()
     constexpr bool check_multiply_result( fixed_t result )
       { 
-      return (result < as_fixed( fixed_internal(0x7fffffffffff0000ll) )
-        || result > as_fixed( fixed_internal(-0x7fffffffffff0000ll)) );
+      return result >= limits_::lowest() && result <= limits_::max();
       }
     
+    ///\brief multiplies internal representations
+    ///\returns false when product is not representable in fixed_internal, signed overflow is undefined behavior
+    constexpr bool multiply_internal( fixed_internal lh, fixed_internal rh, fixed_internal & result ) noexcept
+      {
+#if defined(__GNUC__) || defined(__clang__)
+      return !__builtin_mul_overflow( lh, rh, &result );
+#else
+      constexpr fixed_internal max_ { std::numeric_limits<fixed_internal>::max() };
+      constexpr fixed_internal min_ { std::numeric_limits<fixed_internal>::min() };
+      if( lh == 0 || rh == 0 )
+        {
+        result = 0;
+        return true;
+        }
+      if( lh > 0 ? ( rh > 0 ? lh > max_ / rh : rh < min_ / lh )
+                 : ( rh > 0 ? lh < min_ / rh : rh < max_ / lh ) )
+        return false;
+      result = lh * rh;
+      return true;
+#endif
+      }
+      
     [[ gnu::const, gnu::always_inline ]]
     constexpr fixed_t fixed_multiplyi (fixed_t lh, fixed_t rh) noexcept
       {
-      fixed_t result { fix_carrier_t{ lh.v * rh.v }};
+      fixed_internal result {};
 
-      if( fixed_likely( check_multiply_result(result)) )
-        return fix_carrier_t{ result.v >> 16 };
+      if( fixed_likely( multiply_internal( lh.v, rh.v, result ) ) )
+        return fix_carrier_t{ result >> 16 };
       
       return quiet_NaN_result();
       }
@@ -428,10 +450,17 @@ namespace fixedmath
     [[ gnu::const, gnu::always_inline ]]
     constexpr fixed_t fixed_multiply_scalar (fixed_t lh, integral_type rh) noexcept
       {
-      fixed_t result { fix_carrier_t{ lh.v * promote_type_to_signed(rh) }};
+      if constexpr( is_unsigned_v<integral_type> && sizeof(integral_type) == sizeof(fixed_internal) )
+        {
+        //value not representable in signed type, any non zero product is out of range
+        if( fixed_unlikely( rh > static_cast<integral_type>(std::numeric_limits<fixed_internal>::max()) ) )
+          return lh.v == 0 ? lh : quiet_NaN_result();
+        }
+      fixed_internal result {};
 
-      if( fixed_likely( check_multiply_result(result)) )
-        return result;
+      if( fixed_likely( multiply_internal( lh.v, promote_type_to_signed(rh), result )
+                        && check_multiply_result( as_fixed(result) )) )
+        return as_fixed(result);
       return quiet_NaN_result();
       }
     template<typename integral_type,
